@@ -114,7 +114,9 @@ def fresh_cells(tag):
 def block_unit(mode, bg_known, pixels=False):
     prop = "C02" if pixels else "C01"
 
-    @unit(prop, f"block:BlockImage._render_image[{mode},bg={'known' if bg_known else 'unknown'}]" + ("/pixels" if pixels else ""))
+    c11 = mode == "RGB" and bg_known and not pixels       # the frame-image bookkeeping is checked on one variant (it does not depend on the others)
+
+    @unit((prop, "C11") if c11 else prop, f"block:BlockImage._render_image[{mode},bg={'known' if bg_known else 'unknown'}]" + ("/pixels" if pixels else ""))
     def u(ctx, mode=mode, bg_known=bg_known):
         eng = ctx.engine(f"{prop}/block._render_image[{mode},bg={'known' if bg_known else 'unknown'}]", prop)
         eng.default_replay = "C02.render" if pixels else "C01.render_block"
@@ -138,8 +140,10 @@ def block_unit(mode, bg_known, pixels=False):
             d, r_, g_, b_ = (cells[half + c][col] for c in "drgb")
             transparent = PA(k) == 0 if alpha_mode else z3.BoolVal(False)
             exact = z3.And(z3.Not(d), r_ == PR(k), g_ == PG(k), b_ == PB(k))
-            alt = z3.And(kitty_case, z3.Not(d), r_ == adj(PR(k)), g_ == PG(k), b_ == PB(k))
-            return z3.If(transparent, d, z3.Or(exact, alt))
+            alt = z3.And(z3.Not(d), r_ == adj(PR(k)), g_ == PG(k), b_ == PB(k))
+            # kitty leaves a cell background that equals its own default background unpainted (it is then whatever shows through the
+            # window): there the colour has to be nudged by one step of red - required, not merely tolerated
+            return z3.If(transparent, d, z3.If(kitty_case, alt, exact))
 
         def cell_ok(cells, col, k1, k2):
             if bgc is not None:
@@ -245,7 +249,11 @@ def block_unit(mode, bg_known, pixels=False):
             return orig_for_symbolic(n, seq, s0, lid, spec)
         eng.for_symbolic = for_symbolic
         st.env.update(self=self_, img=img0, alpha=Opaque("alpha"), frame=z3.Bool("frame"), split_cells=False)
+        if c11:
+            frame_image_world(eng, "BlockImage")
         outs = run_function(eng, ctx.fn(BLOCK, "BlockImage._render_image"), st)
+        if c11:
+            frame_image_exits(eng, outs, img0, z3.Bool("frame"))
         for kind, val, s in outs:
             if kind != "return":
                 eng.oblige(f"no-exception:{getattr(val, 'cls', kind)}", s, False, kind="raise")
